@@ -77,9 +77,25 @@ def main():
         shutil.rmtree(wt, ignore_errors=True)
     dst = os.path.join(VERIF, 'seeded', sid)
     os.makedirs(dst, exist_ok=True)
+    prev = {}
+    if os.path.exists(os.path.join(dst, 'meta.json')):
+        prev = json.load(open(os.path.join(dst, 'meta.json')))
+    if skip_tests and 'tests_match_baseline' in prev.get('evaluation', {}):
+        # the pinned suite was run on this patch in an earlier evaluation
+        report['tests_match_baseline'] = prev['evaluation']['tests_match_baseline']
+        report['tests_tail'] = prev['evaluation'].get('tests_tail', '')
+    history = list(prev.get('evaluations_history', []))
+    if prev.get('evaluation'):
+        history.append({'detected': prev['evaluation'].get('detected'),
+                        'checks': {k: v.get('violation_keys') for k, v in
+                                   prev['evaluation'].get('checks', {}).items()}})
     for f in ('patch.diff', 'demo.py'):
         shutil.copy(os.path.join(src, f), os.path.join(dst, f))
     meta_out = dict(meta)
+    if history:
+        meta_out['evaluations_history'] = history
+    if prev.get('history'):
+        meta_out['history'] = prev['history']
     meta_out.update({'breaks_property': prop, 'evaluation': report,
                      'what_was_run': ['demo.py on clean and patched scratch worktree of /repo HEAD',
                                       'tools_baseline.py on the patched tree',
